@@ -55,6 +55,14 @@ def gen_cases(ctx):
             for _ in range(400 if thorough else 40):
                 cases.append(ddgen.case_history(f"h{cid}", kind, rng, nv=rng.randrange(3, 7), length=rng.choice([30, 60, 120]),
                                                 threads=threads)); cid += 1
+    # MTBDD<F64> (harness kind mtbddf): terminal value = normalised bit pattern (ocaml/dd_types.ml), so a
+    # result stored as -0.0 or as a NaN with payload shows up as two handles with equal tables but
+    # different edges; divisions produce such results (0 / -1, -1 / +inf, 0 / 0, inf / inf)
+    for j, (op, lo, hi) in enumerate([("DIV", 0, 40), ("DIV", 40, 121), ("MUL", 0, 40), ("SUB", 80, 121)]
+                                     if thorough else [("DIV", 0, 40), ("MUL", 90, 121)]):
+        cases.append(ddgen.mtf_case_pairs_1var(f"fp{cid}", op, bool(j % 2), lo, hi)); cid += 1
+    for _ in range(200 if thorough else 20):
+        cases.append(ddgen.mtf_case_history(f"fh{cid}", rng, threads=rng.choice([1, 1, 4]))); cid += 1
     return cases
 
 
